@@ -36,11 +36,16 @@ func genWriteBatch(c *hx.Ctx) {
 type wbPkt struct{ size, dst int }
 
 type wbScenario struct {
-	isV4, gso    bool
-	maxSegs, cap int
-	dests        []netip.AddrPort
-	pkts         []wbPkt
-	script       []udp.VerifWBOutcome
+	// rel != "": maxSegs was obtained from the real gsoMaxSegments(rel), as prepareGSO does, and the fake kernel is
+	// the kernel of that release: it refuses UDP_SEGMENT sends with more than kernelSegs segments (EINVAL)
+	rel                string
+	relMajor, relMinor int
+	kernelSegs         int
+	isV4, gso          bool
+	maxSegs, cap       int
+	dests              []netip.AddrPort
+	pkts               []wbPkt
+	script             []udp.VerifWBOutcome
 }
 
 const wbUnknown = 999999
@@ -73,7 +78,7 @@ func wbRun(cw *hx.CaseWriter, sc wbScenario, kind string) {
 		}
 		pkJ[i] = [3]int{p.size, p.dst, okI}
 	}
-	res := udp.VerifWriteBatch(sc.isV4, sc.gso, sc.maxSegs, sc.cap, bufs, addrs, sc.script)
+	res := udp.VerifWriteBatchK(sc.isV4, sc.gso, sc.maxSegs, sc.cap, bufs, addrs, sc.script, sc.kernelSegs)
 
 	dstID := func(e udp.VerifWBEntry) uint64 {
 		if !e.AddrOK {
@@ -119,23 +124,26 @@ func wbRun(cw *hx.CaseWriter, sc wbScenario, kind string) {
 			callsJ = append(callsJ, [4]int{cl.Start, cl.N, cl.Sent, cl.Errno})
 		}
 	}
-	used := sc.script // only the part of the script that was consumed matters
-	if len(res.Calls) < len(used) {
-		used = used[:len(res.Calls)]
+	// the kernel's answers as they were given (script item clamped to the entries offered, kernel segment limit applied)
+	script := make([]string, len(res.Calls))
+	for i, cl := range res.Calls {
+		script[i] = hx.Tuple(hx.Z(int64(cl.Sent)), hx.N(uint64(cl.Errno)))
 	}
-	script := make([]string, len(used))
-	scriptJ := make([][2]int, len(used))
-	for i, s := range used {
-		script[i] = hx.Tuple(hx.Z(int64(s.Sent)), hx.N(uint64(s.Errno)))
+	scriptJ := make([][2]int, len(sc.script))
+	for i, s := range sc.script {
 		scriptJ[i] = [2]int{s.Sent, s.Errno}
 	}
 	ret := uint64(wbUnknown)
 	if res.Ret >= 0 {
 		ret = uint64(res.Ret)
 	}
-	lit := hx.App("WriteBatch_corr.CBatch", hx.N(uint64(sc.cap)), hx.Bool(sc.gso), hx.N(uint64(sc.maxSegs)), hx.List(pk), hx.List(script),
-		hx.List(calls), hx.N(ret), hx.Bool(res.Err), hx.Bool(res.GsoAfter), hx.Bool(res.Panic != ""))
-	cw.Add(lit, kind, multi || fault, map[string]any{"op": "batch", "v4_socket": sc.isV4, "gso": sc.gso, "max_segs": sc.maxSegs, "cap": sc.cap,
+	args := []string{hx.N(uint64(sc.cap)), hx.Bool(sc.gso), hx.N(uint64(sc.maxSegs)), hx.List(pk), hx.List(script),
+		hx.List(calls), hx.N(ret), hx.Bool(res.Err), hx.Bool(res.GsoAfter), hx.Bool(res.Panic != "")}
+	lit := hx.App("WriteBatch_corr.CBatch", args...)
+	if sc.rel != "" {
+		lit = hx.App("WriteBatch_corr.CBatchRel", append([]string{hx.N(uint64(sc.relMajor)), hx.N(uint64(sc.relMinor))}, args...)...)
+	}
+	cw.Add(lit, kind, multi || fault, map[string]any{"op": "batch", "kernel_release": sc.rel, "kernel_segment_limit": sc.kernelSegs, "v4_socket": sc.isV4, "gso": sc.gso, "max_segs": sc.maxSegs, "cap": sc.cap,
 		"pkts_len_dst_ok": pkJ, "script_sent_errno": scriptJ, "calls_start_n_sent_errno_first40": callsJ, "ncalls": len(res.Calls),
 		"ret": res.Ret, "err": res.Err, "gso_after": res.GsoAfter, "panic": res.Panic})
 }
@@ -162,6 +170,47 @@ func runWriteBatch(c *hx.Ctx) {
 	}
 	d44 := []netip.AddrPort{wbDest(0, false), wbDest(1, false), wbDest(2, true), wbDest(3, true)}
 
+	// ---- kernel-release gate: the real gsoMaxSegments / parseRelease on a swept table of release strings ----------
+	addRel := func(rel string, wf bool, major, minor int, kind string) {
+		lim := udp.VerifGsoMaxSegments(rel)
+		pm, pn := udp.VerifParseRelease(rel)
+		cw.Add(hx.App("WriteBatch_corr.CRelease", hx.Bool(wf), hx.N(uint64(major)), hx.N(uint64(minor)), hx.Z(int64(pm)), hx.Z(int64(pn)), hx.Z(int64(lim))),
+			kind, wf, map[string]any{"op": "release", "release": rel, "wellformed": wf, "major": major, "minor": minor, "parsed": [2]int{pm, pn}, "limit": lim})
+	}
+	for major := 2; major <= 9; major++ {
+		for minor := 0; minor <= 40; minor++ {
+			for _, f := range []string{"%d.%d", "%d.%d.0", "%d.%d.0-76-generic", "%d.%d.3-arch1-1", "%d.%d-rc1", "%d.%d.0-rc1+"} {
+				addRel(fmt.Sprintf(f, major, minor), true, major, minor, "release-sweep")
+			}
+		}
+	}
+	for _, mm := range [][2]int{{10, 0}, {10, 8}, {12, 3}, {6, 99}, {6, 100}, {5, 99}, {5, 190}, {0, 69}, {1, 59}, {60, 9}, {69, 0}} {
+		addRel(fmt.Sprintf("%d.%d.1-generic", mm[0], mm[1]), true, mm[0], mm[1], "release-sweep")
+	}
+	for _, bad := range []string{"", "6", "6.", ".9", "6.x", "abc", " 6.9", "6 .9", "x.9.0", "garbage", "-6.9", "6..9", "v6.9.0", "six.nine"} {
+		addRel(bad, false, 0, 0, "release-malformed")
+	}
+	// batches planned with the limit the real gate returns for a release, against the kernel of that release: it takes at
+	// most UDP_MAX_SEGMENTS - 1 segments per send (64 before 6.9, 128 from 6.9 on) and answers EINVAL above that
+	for _, r := range []struct {
+		rel          string
+		major, minor int
+	}{{"5.4.0-generic", 5, 4}, {"5.19.0-76-generic", 5, 19}, {"5.20.1", 5, 20}, {"4.29.0", 4, 29}, {"3.39.2", 3, 39}, {"6.8.0-rc1", 6, 8},
+		{"6.9.0", 6, 9}, {"6.10.3-arch1-1", 6, 10}, {"7.0.0", 7, 0}, {"6.18.44-fc-v33", 6, 18}} {
+		ks := 63
+		if r.major > 6 || (r.major == 6 && r.minor >= 9) {
+			ks = 127
+		}
+		for _, n := range []int{62, 63, 64, 65, 100, 126, 127, 128} {
+			for _, scr := range [][]udp.VerifWBOutcome{{full, full, full, full}, {ok(1), full, full, full}} {
+				sc := wbScenario{rel: r.rel, relMajor: r.major, relMinor: r.minor, kernelSegs: ks, isV4: true, gso: true,
+					maxSegs: udp.VerifGsoMaxSegments(r.rel), cap: 128, dests: d44, script: scr}
+				sc.pkts = cat(rep(1, 300, 1), rep(n, 100, 0), rep(2, 100, 1))
+				wbRun(cw, sc, "release-batch")
+			}
+		}
+	}
+
 	// ---- corpus: the scenarios of the repository's tests and the limits -----------------------------
 	base := wbScenario{isV4: true, gso: true, maxSegs: 63, cap: 128, dests: d44}
 	with := func(f func(*wbScenario)) wbScenario { s := base; f(&s); return s }
@@ -181,8 +230,15 @@ func runWriteBatch(c *hx.Ctx) {
 			s.script = []udp.VerifWBOutcome{ok(1), fail(wbEIO), ok(2), fail(wbEIO), full}
 		}),
 		// EIO on a single-packet entry is a plain rejection; EIO with GSO off likewise
-		with(func(s *wbScenario) { s.pkts = cat(rep(1, 500, 0), rep(2, 600, 1)); s.script = []udp.VerifWBOutcome{fail(wbEIO), full} }),
-		with(func(s *wbScenario) { s.gso = false; s.pkts = rep(3, 500, 0); s.script = []udp.VerifWBOutcome{fail(wbEIO), ok(1), fail(wbEIO)} }),
+		with(func(s *wbScenario) {
+			s.pkts = cat(rep(1, 500, 0), rep(2, 600, 1))
+			s.script = []udp.VerifWBOutcome{fail(wbEIO), full}
+		}),
+		with(func(s *wbScenario) {
+			s.gso = false
+			s.pkts = rep(3, 500, 0)
+			s.script = []udp.VerifWBOutcome{fail(wbEIO), ok(1), fail(wbEIO)}
+		}),
 		// mid-chunk reject resumes; ENOBUFS surfaced after sendmmsg's own retries is a rejection
 		with(func(s *wbScenario) {
 			s.pkts = cat(rep(1, 100, 0), rep(1, 100, 1), rep(1, 100, 0), rep(1, 100, 1))
@@ -190,7 +246,11 @@ func runWriteBatch(c *hx.Ctx) {
 		}),
 		// zero progress with a nil error
 		with(func(s *wbScenario) { s.pkts = rep(3, 100, 0); s.script = []udp.VerifWBOutcome{ok(0)} }),
-		with(func(s *wbScenario) { s.gso = false; s.pkts = rep(3, 100, 0); s.script = []udp.VerifWBOutcome{ok(2), ok(0)} }),
+		with(func(s *wbScenario) {
+			s.gso = false
+			s.pkts = rep(3, 100, 0)
+			s.script = []udp.VerifWBOutcome{ok(2), ok(0)}
+		}),
 		// unroutable runs leave holes; count must not span them
 		with(func(s *wbScenario) {
 			s.pkts = cat(rep(2, 300, 0), rep(3, 300, 2), rep(2, 300, 1), rep(1, 300, 3), rep(1, 300, 0))
@@ -204,31 +264,62 @@ func runWriteBatch(c *hx.Ctx) {
 		}),
 		// segment limit: 64 equal packets, 63 per superpacket; 127 with the newer cap; tiny caps
 		with(func(s *wbScenario) { s.pkts = rep(64, 100, 0); s.script = []udp.VerifWBOutcome{full} }),
-		with(func(s *wbScenario) { s.maxSegs = 127; s.pkts = rep(64, 100, 0); s.script = []udp.VerifWBOutcome{ok(0), full} }),
-		with(func(s *wbScenario) { s.maxSegs = 2; s.pkts = rep(7, 100, 0); s.script = []udp.VerifWBOutcome{ok(2), fail(wbEIO), full} }),
+		with(func(s *wbScenario) {
+			s.maxSegs = 127
+			s.pkts = rep(64, 100, 0)
+			s.script = []udp.VerifWBOutcome{ok(0), full}
+		}),
+		with(func(s *wbScenario) {
+			s.maxSegs = 2
+			s.pkts = rep(7, 100, 0)
+			s.script = []udp.VerifWBOutcome{ok(2), fail(wbEIO), full}
+		}),
 		with(func(s *wbScenario) { s.maxSegs = 1; s.pkts = rep(4, 100, 0); s.script = []udp.VerifWBOutcome{full} }),
 		with(func(s *wbScenario) { s.maxSegs = 0; s.pkts = rep(4, 100, 0); s.script = []udp.VerifWBOutcome{full} }),
 		// byte limit: 8 x 9001 > 65000; exact fit 65000; first packet at and above the limit
 		with(func(s *wbScenario) { s.pkts = rep(9, 9001, 0); s.script = []udp.VerifWBOutcome{full} }),
 		with(func(s *wbScenario) { s.pkts = rep(5, 13000, 0); s.script = []udp.VerifWBOutcome{full} }),
-		with(func(s *wbScenario) { s.pkts = cat(rep(4, 13000, 0), rep(1, 12999, 0), rep(1, 1, 0)); s.script = []udp.VerifWBOutcome{full} }),
-		with(func(s *wbScenario) { s.pkts = cat(rep(2, 65000, 0), rep(2, 65001, 0), rep(2, 32500, 0), rep(2, 32501, 0)); s.script = []udp.VerifWBOutcome{full} }),
+		with(func(s *wbScenario) {
+			s.pkts = cat(rep(4, 13000, 0), rep(1, 12999, 0), rep(1, 1, 0))
+			s.script = []udp.VerifWBOutcome{full}
+		}),
+		with(func(s *wbScenario) {
+			s.pkts = cat(rep(2, 65000, 0), rep(2, 65001, 0), rep(2, 32500, 0), rep(2, 32501, 0))
+			s.script = []udp.VerifWBOutcome{full}
+		}),
 		// shorter last, then the run restarts; a longer packet breaks the run; empty packets
 		with(func(s *wbScenario) {
 			s.pkts = cat(rep(3, 1000, 0), rep(1, 10, 0), rep(2, 1000, 0), rep(1, 1001, 0), rep(1, 0, 0), rep(2, 0, 0), rep(2, 7, 0))
 			s.script = []udp.VerifWBOutcome{ok(2), full}
 		}),
 		// chunking: scratch smaller than the batch; a run cut by the iovec budget
-		with(func(s *wbScenario) { s.cap = 4; s.pkts = cat(rep(6, 100, 0), rep(3, 100, 1)); s.script = []udp.VerifWBOutcome{ok(1), full} }),
+		with(func(s *wbScenario) {
+			s.cap = 4
+			s.pkts = cat(rep(6, 100, 0), rep(3, 100, 1))
+			s.script = []udp.VerifWBOutcome{ok(1), full}
+		}),
 		with(func(s *wbScenario) {
 			s.cap = 3
 			s.pkts = cat(rep(1, 50, 1), rep(5, 100, 0), rep(1, 50, 1), rep(2, 100, 0))
 			s.script = []udp.VerifWBOutcome{ok(1), fail(wbEIO), ok(1), fail(13), full}
 		}),
-		with(func(s *wbScenario) { s.cap = 1; s.pkts = cat(rep(3, 100, 0), rep(2, 100, 1)); s.script = []udp.VerifWBOutcome{full, fail(wbEIO), full} }),
-		with(func(s *wbScenario) { s.cap = 2; s.gso = false; s.pkts = rep(5, 100, 0); s.script = []udp.VerifWBOutcome{ok(1), fail(1), full} }),
+		with(func(s *wbScenario) {
+			s.cap = 1
+			s.pkts = cat(rep(3, 100, 0), rep(2, 100, 1))
+			s.script = []udp.VerifWBOutcome{full, fail(wbEIO), full}
+		}),
+		with(func(s *wbScenario) {
+			s.cap = 2
+			s.gso = false
+			s.pkts = rep(5, 100, 0)
+			s.script = []udp.VerifWBOutcome{ok(1), fail(1), full}
+		}),
 		// accepted count together with an error value (cannot come from sendmmsg(2), but sendFn's type allows it)
-		with(func(s *wbScenario) { s.pkts = rep(5, 100, 0); s.gso = false; s.script = []udp.VerifWBOutcome{{Sent: 2, Errno: wbEIO}, full} }),
+		with(func(s *wbScenario) {
+			s.pkts = rep(5, 100, 0)
+			s.gso = false
+			s.script = []udp.VerifWBOutcome{{Sent: 2, Errno: wbEIO}, full}
+		}),
 	}
 	for _, sc := range corpus {
 		wbRun(cw, sc, "corpus")
